@@ -133,3 +133,14 @@ Fixpoint scan2 {A} (p : A -> A -> bool) (a b : list A) : bool :=
   | x :: xs, y :: ys => p x y || scan2 p xs ys
   | _, _ => false
   end.
+
+(** bytes.Compare: -1, 0 or +1, lexicographic on byte values. *)
+Fixpoint bytes_cmp (a b : list Z) : comparison :=
+  match a, b with
+  | [], [] => Eq
+  | [], _ :: _ => Lt
+  | _ :: _, [] => Gt
+  | x :: xs, y :: ys => match Z.compare x y with Eq => bytes_cmp xs ys | c => c end
+  end.
+Definition bytes_compare (a b : list Z) : Z :=
+  match bytes_cmp a b with Lt => (-1)%Z | Eq => 0%Z | Gt => 1%Z end.
